@@ -64,9 +64,40 @@ class _GhostBlock:
         self.tag = tag
 
 
-def _lemma_chunk_task(n_src, axis, src_nodata, dst_nodata, dt):
+class _GhostMask:
+    def __init__(self, verdict):
+        self._v = verdict
+
+    def all(self, *a, **k):
+        return self._v
+
+    def any(self, *a, **k):
+        return self._v
+
+
+class _GhostWin:
+    """the window an assembler hands out: compares like an array with a scalar (`(w == nodata).all()` is the lemma's
+    input `all_nodata`: whether this window holds nothing but the source nodata)"""
+
+    def __init__(self, roi, all_nodata):
+        self.roi, self._all = roi, all_nodata
+
+    def __eq__(self, o):
+        if isinstance(o, _GhostWin):
+            return self.roi == o.roi
+        return _GhostMask(self._all)
+
+    def __ne__(self, o):
+        if isinstance(o, _GhostWin):
+            return self.roi != o.roi
+        return _GhostMask(not self._all)
+
+    __hash__ = None
+
+
+def _lemma_chunk_task(n_src, axis, src_nodata, dst_nodata, dt, all_nodata):
     m = repo(DK)
-    log = dict(ba=[], extract=[], warp=[], zeros=[])
+    log = dict(ba=[], extract=[], warp=[], zeros=[], assign=[])
     src_idx_in = [(2, 3), (2, 4), (3, 3)][:n_src]
     blocks = [_GhostBlock(f"block{k}") for k in range(n_src)]
 
@@ -107,7 +138,7 @@ def _lemma_chunk_task(n_src, axis, src_nodata, dst_nodata, dt):
 
         def extract(self, fill_value=None, *, dtype=None, roi=None, casting="same_kind"):
             log["extract"].append((fill_value, dtype, roi, casting))
-            return ("window", roi)
+            return _GhostWin(roi, all_nodata)
 
     class GhostDst:
         def __init__(self, shape, dtype):
@@ -116,10 +147,16 @@ def _lemma_chunk_task(n_src, axis, src_nodata, dst_nodata, dt):
         def __getitem__(self, roi):
             return ("dst-view", roi)
 
+        def __setitem__(self, roi, value):
+            log["assign"].append((len(log["extract"]) - 1, roi, value))
+
     class GhostNp:
         s_ = __import__("numpy").s_
         dtype = staticmethod(__import__("numpy").dtype)
         nan = float("nan")
+        isnan = staticmethod(__import__("numpy").isnan)
+        issubdtype = staticmethod(__import__("numpy").issubdtype)
+        floating = __import__("numpy").floating
 
         @staticmethod
         def zeros(shape, dtype=None):
@@ -127,7 +164,7 @@ def _lemma_chunk_task(n_src, axis, src_nodata, dst_nodata, dt):
             return GhostDst(shape, dtype)
 
     def warp(src, dst, s_gbox, d_gbox, **kw):
-        log["warp"].append((src, dst, s_gbox, d_gbox, kw))
+        log["warp"].append((len(log["extract"]) - 1, src, dst, s_gbox, d_gbox, kw))
         return dst
 
     saved = (m.BlockAssembler, m._rio_reproject, m.np)
@@ -146,27 +183,42 @@ def _lemma_chunk_task(n_src, axis, src_nodata, dst_nodata, dt):
     nplanes = 1 if axis == 0 else 2
     claim(len(log["zeros"]) == 1 and log["zeros"][0][1] == dt, "the chunk starts zero-initialised with the assembled dtype")
     claim(log["zeros"][0][0] == ("T",) * axis + (3, 5), "the chunk has the destination chunk's shape with the non-spatial axes of the source")
-    claim(len(log["extract"]) == nplanes and len(log["warp"]) == nplanes, "one warp per non-spatial plane")
     import math as _m
 
-    for (fill, dt_, roi, casting), (src, dst, sg, dg, kw) in zip(log["extract"], log["warp"]):
+    warps = {w[0]: w[1:] for w in log["warp"]}
+    assigns = {a[0]: a[1:] for a in log["assign"]}
+    claim(len(log["extract"]) == nplanes and len(log["warp"]) + len(log["assign"]) == nplanes and sorted([*warps, *assigns]) == list(range(nplanes)), "every non-spatial plane is produced exactly once (one warp per plane; a plane may only be filled directly -- see below)")
+    claim(all_nodata or not assigns, "a plane whose window holds data is always warped")
+
+    def plane_view(roi):
+        return (tuple(roi[:-1]) + (slice(None), slice(None))) if axis else (slice(None), slice(None))
+
+    for k, (fill, dt_, roi, casting) in enumerate(log["extract"]):
         claim(fill is src_nodata and dt_ == dt, "gaps between the available blocks are filled with the source nodata")
-        claim(src == ("window", roi), "the warp reads the assembled window of that plane")
-        claim(dst[0] == "dst-view" and dst[1] == tuple(roi[:-1]) + (slice(None), slice(None)) if axis else dst == ("dst-view", (slice(None), slice(None))), "... and writes the same plane of the chunk")
-        claim(sg is _SRC_GBOX and dg is _DST_GBOX, "with the clipped source GeoBox and the destination chunk's GeoBox")
-        claim(kw.get("src_nodata") is src_nodata and kw.get("resampling") == "nearest", "source nodata and resampling passed through")
-        got_dn = kw.get("dst_nodata")
-        if dst_nodata is None and dt.startswith("float"):
-            claim(isinstance(got_dn, float) and _m.isnan(got_dn), "floating-point data without nodata: unreached pixels become NaN (same rule as the in-memory path)")
-        else:
-            claim(got_dn is dst_nodata, "destination nodata passed through")
+        if k in warps:
+            src, dst, sg, dg, kw = warps[k]
+            claim(isinstance(src, _GhostWin) and src.roi == roi, "the warp reads the assembled window of that plane")
+            claim(dst == ("dst-view", plane_view(roi)), "... and writes the same plane of the chunk")
+            claim(sg is _SRC_GBOX and dg is _DST_GBOX, "with the clipped source GeoBox and the destination chunk's GeoBox")
+            claim(kw.get("src_nodata") is src_nodata and kw.get("resampling") == "nearest", "source nodata and resampling passed through")
+            got_dn = kw.get("dst_nodata")
+            if dst_nodata is None and dt.startswith("float"):
+                claim(isinstance(got_dn, float) and _m.isnan(got_dn), "floating-point data without nodata: unreached pixels become NaN (same rule as the in-memory path)")
+            else:
+                claim(got_dn is dst_nodata, "destination nodata passed through")
+        elif k in assigns:
+            # a window of nothing but source nodata reaches no destination pixel: the plane must hold the FILL value --
+            # destination nodata if set, else source nodata (only reachable with a source nodata), exactly what the warp leaves
+            aroi, val = assigns[k]
+            want = dst_nodata if dst_nodata is not None else src_nodata
+            claim(src_nodata is not None and aroi == plane_view(roi) and val == want, "a plane filled without warping holds the fill value (destination nodata if set, else source nodata) in the right plane")
     claim(isinstance(out, GhostDst), "the chunk is returned")
 
 
 lemma(
     "dask.chunk_task_flow",
     ["C13"],
-    inputs=dict(n_src=OneOf(1, 2, 3), axis=OneOf(0, 1), src_nodata=OneOf(None, -1), dst_nodata=OneOf(None, 9), dt=OneOf("int16", "float32")),
+    inputs=dict(n_src=OneOf(1, 2, 3), axis=OneOf(0, 1), src_nodata=OneOf(None, -1), dst_nodata=OneOf(None, 9), dt=OneOf("int16", "float32"), all_nodata=Bool()),
     body=_lemma_chunk_task,
     note="data flow of the real _do_chunked_reproject over ghost tilings / blocks / assembler and a recording warp",
 )
@@ -325,11 +377,16 @@ def _eq_samples():
                 for dtype, nodata in (("int16", -1), ("uint8", None), ("float32", None)) if thorough or name in ("aligned_shift", "partial_overlap", "disjoint") else (("int16", -1),):
                     for time_axis in (False, True) if name in ("aligned_shift", "partial_overlap") else (False,):
                         yield dict(dst=name, src_chunks=sch, dst_chunks=dch, dtype=dtype, nodata=nodata, time_axis=time_axis)
+        # whole source chunks / a whole time step hold nothing but nodata, and the destination nodata is overridden
+        for name in ("aligned_shift", "subpixel", "partial_overlap"):
+            for time_axis in (False, True):
+                yield dict(dst=name, src_chunks=(7, 9), dst_chunks=(5, 6), dtype="int16", nodata=-1, time_axis=time_axis, masked=True, dst_nodata=100)
+        yield dict(dst="aligned_shift", src_chunks=(7, 9), dst_chunks=(5, 6), dtype="uint8", nodata=0, time_axis=True, masked=True, dst_nodata=255)
         # several lazy reprojections of the SAME source evaluated in one graph must not interfere
         for vary in ("dst_nodata", "src_nodata", "resampling", "dst_geobox", "chunks"):
             yield dict(dst="partial_overlap", src_chunks=(7, 9), dst_chunks=(5, 6), dtype="int16", nodata=-1, time_axis=False, joint=vary)
 
-    return "11 destination placements (identical, whole-pixel shift, sub-pixel, x2, x1/2, mirrored, mirrored + sub-pixel, mirrored + x1.3, partial overlap, disjoint, other CRS) x 4-5 chunkings incl. 1-pixel and non-dividing chunks x dtypes/nodata x optional leading time axis; threaded and synchronous schedulers", gen()
+    return "11 destination placements (identical, whole-pixel shift, sub-pixel, x2, x1/2, mirrored, mirrored + sub-pixel, mirrored + x1.3, partial overlap, disjoint, other CRS) x 4-5 chunkings incl. 1-pixel and non-dividing chunks x dtypes/nodata x optional leading time axis; sources whose first chunks / a whole time step are all nodata with an overridden destination nodata; threaded and synchronous schedulers", gen()
 
 
 def _eq_oracle(args, run=None):
@@ -349,6 +406,11 @@ def _eq_oracle(args, run=None):
     nt = 3 if args["time_axis"] else 0  # three time steps, chunked (2, 1): non-uniform chunks along the leading axis
     shape = ((nt,) if nt else ()) + tuple(src_g.shape)
     pix = rng.integers(1, 200, size=shape).astype(dtype)
+    dn = args.get("dst_nodata")
+    if args.get("masked"):
+        pix[..., :14, :18] = nodata  # the first 2 x 2 source chunks of a (7, 9) chunking
+        if nt:
+            pix[1] = nodata  # a whole time step
     xx = wrap_xr(pix, src_g, nodata=nodata, **({"time": ["2020-01-01", "2020-01-02", "2020-01-03"]} if nt else {}))
     if name == "other_crs":
         dst_g = xx.odc.output_geobox("EPSG:3857")
@@ -379,13 +441,14 @@ def _eq_oracle(args, run=None):
                 fails.append(f"post:two lazy reprojections of one source differing only in {v}, evaluated in ONE graph, each equal their own in-memory result (result {i} differs)")
         return fails
     ydim = 1 if args["time_axis"] else 0
-    ref = xx.odc.reproject(dst_g, resampling="nearest")
+    dkw = {} if dn is None else dict(dst_nodata=dn)
+    ref = xx.odc.reproject(dst_g, resampling="nearest", **dkw)
     cy, cx = args["src_chunks"]
     ch = {src_g.dimensions[0]: cy, src_g.dimensions[1]: cx}
     if args["time_axis"]:
         ch["time"] = 2
     kw = {} if args["dst_chunks"] is None else dict(chunks=args["dst_chunks"])
-    lazy = xx.chunk(ch).odc.reproject(dst_g, resampling="nearest", **kw)
+    lazy = xx.chunk(ch).odc.reproject(dst_g, resampling="nearest", **kw, **dkw)
     if lazy.shape != ref.shape or lazy.dtype != ref.dtype:
         fails.append("post:shape and dtype equal those of the in-memory reprojection")
         return fails
@@ -395,7 +458,7 @@ def _eq_oracle(args, run=None):
     gbt_src = GeoboxTiles(src_g, xx.chunk(ch).data.chunks[ydim : ydim + 2])
     gbt_dst = GeoboxTiles(dst_g, args["dst_chunks"] if args["dst_chunks"] is not None else (cy, cx))
     d2s = gbt_dst.grid_intersect(gbt_src)
-    fill = (np.dtype(dtype).type(nodata) if nodata is not None else (np.nan if np.dtype(dtype).kind == "f" else 0))
+    fill = np.dtype(dtype).type(dn) if dn is not None else (np.dtype(dtype).type(nodata) if nodata is not None else (np.nan if np.dtype(dtype).kind == "f" else 0))
     src_name = xx.chunk(ch).data.name
     for key in arr.__dask_keys__() if not args["time_axis"] else [k for row in arr.__dask_keys__() for k in row]:
         for k in key if isinstance(key, list) and isinstance(key[0], list) else [key]:
